@@ -306,9 +306,9 @@ def main(tier, seed, replay=None):
     common.ensure_worker("chk")
     run = common.Run(PROP, tier, seed)
     q = tier == "quick"
-    cases = [("const", seed, i) for i in range(250 if q else 20000)]
-    cases += [("len", seed, i) for i in range(90 if q else 4500)]
-    cases += [("layout", seed, i) for i in range(80 if q else 6000)]
+    cases = [("const", seed, i) for i in range(1000 if q else 20000)]
+    cases += [("len", seed, i) for i in range(270 if q else 4500)]
+    cases += [("layout", seed, i) for i in range(300 if q else 6000)]
     cases += [("word", seed, i) for i in range(60 if q else 3000)]
     for r in common.run_sharded(run_case, cases):
         if r.get("verdict") is None and "harness_error" not in r:
